@@ -94,6 +94,9 @@ func verifC19BlocksBody(forced int) {
 	}
 	verifC19Reset(start)
 	verifC19.openEnded = openEnded
+	if openEnded {
+		verifC19.openLimit = int(maxSlotsToStream)
+	}
 	solanatxmetaparsers.VerifParseAnyHook = verifC19ParseAnyMeta
 
 	n := 1
